@@ -21,7 +21,7 @@ import time
 from collections import Counter
 
 from . import build, project, tracecheck
-from .core import MachineryError, Part, merge_worker_outputs, parallel_replay
+from .core import trim, MachineryError, Part, merge_worker_outputs, parallel_replay
 from .fam_iter import EXC, canon_tree, fingerprint, full_tree, is_noop_call
 from .tlc import run_tlc
 
@@ -316,6 +316,10 @@ def replay_state(st: dict, out: dict, want_event: bool, want_rejects: bool = Tru
         return
     if breaks:
         V(["C14"], "a documented no-op call did not return the relation itself", calls=breaks)
+    try:
+        hash(rel)
+    except TypeError as exc:
+        V(["C09"], f"a relation built by the factories is not hashable: {exc}", relation=str(rel))
     # ---- structure
     real_tree = project.tree(rel)
     same_shape = canon_tree(project.strip_sel_target(real_tree)) == canon_tree(project.strip_sel_target(st["tree"]))
@@ -521,8 +525,8 @@ def worker(lines, ctx):
             out["nontrivial"] += 1
         replay_state(st, out, want_event=(i % every == 0), want_rejects=(i % ctx.get("rejects_every", 1) == 0),
                      want_raw=(i % ctx.get("raw_every", 1) == 0))
-        if len(out["violations"]) > 40:
-            out["violations"] = out["violations"][:40]
+        if len(out["violations"]) > 60:
+            out["violations"] = trim(out["violations"])
         if len(out["samples"]) < 1 and st["fired"] and len(st["hist"]) >= 2:
             out["samples"].append({"t1": st["t1"], "hist": st["hist"], "expected_rows": st["rows"], "det": st["det"], "ord": st["ord"]})
     return out
